@@ -22,7 +22,10 @@ PANEL_PROBES_AFTER_NEW = 3
 def gen_scenario(rng, index):
     """Two families (swarm style): 'race' = few threads hammering one shared evaluator with small texts (many
     schedules per second, the publish / check-then-act windows are a large share of each run); 'swarm' = anything goes."""
-    family = "race" if rng.random() < 0.5 else "swarm"
+    r0 = rng.random()
+    # 'cold': nothing of the package has run in the process before the threads start (the sequential reference is taken
+    # afterwards): first-use / lazy-initialisation races are only visible here
+    family = "race" if r0 < 0.5 else ("cold" if r0 < 0.6 else "swarm")
     progs = []
     n_base = rng.choice([1, 2, 2, 3])
     shared_name = rng.choice(["exp_a", "exp_b"])
@@ -47,6 +50,8 @@ def gen_scenario(rng, index):
     if family == "race":
         n_shared, n_threads, max_ops, mix = 1, rng.choice([2, 2, 2, 3, 4]), 2, rng.choice(["race", "race", "recompile-heavy", "call-vs-recompile",
                                                                                           "call-vs-recompile"])
+    if family == "cold":
+        n_shared, n_threads, max_ops, mix = 0, rng.choice([2, 2, 3, 4]), 2, "cold"
     shared = [rng.randrange(n_valid) for _ in range(n_shared)]
     th = []
     for _t in range(n_threads):
@@ -63,7 +68,7 @@ def gen_scenario(rng, index):
             continue
         for _ in range(rng.randint(1, max_ops)):
             r = rng.random()
-            w = {"race": (0.8, 1.0, 1.0), "recompile-heavy": (0.6, 0.85, 0.95), "mixed": (0.35, 0.65, 0.85),
+            w = {"cold": (0.0, 0.0, 0.85), "race": (0.8, 1.0, 1.0), "recompile-heavy": (0.6, 0.85, 0.95), "mixed": (0.35, 0.65, 0.85),
                  "construct-heavy": (0.15, 0.3, 0.85), "call-heavy": (0.2, 0.75, 0.85)}[mix]
             if r < w[0]:
                 t = rng.randrange(len(progs)) if rng.random() < 0.15 else rng.randrange(n_valid)
@@ -172,8 +177,9 @@ class Runner:
 
     def _run(self, sc, seed, decisions):
         texts = sc["texts"]
+        cold = sc.get("family") == "cold" and not sc["shared"]
         try:
-            judged = self.judge(sc)
+            judged = None if cold else self.judge(sc)
         except threads.SimDeadlock:
             return {"result": "skip", "why": "sequential reference deadlocks (C11's business)"}
         for k in sc["shared"]:
@@ -234,6 +240,12 @@ class Runner:
                 "lock_acquire": sched.stats.get("lock_acquire", 0), "lock_blocked": sched.stats.get("lock_blocked", 0),
                 "lock_timeout": sched.stats.get("lock_timeout", 0), "sleep": sched.stats.get("sleep", 0), "parked": sched.stats.get("parked", 0)}
         res = {"result": "ok", "info": info, "decisions": [list(d) for d in sched.decisions], "hist": hist}
+        if cold and sched.deadlock is None:
+            try:
+                judged = self.judge(sc)         # reference taken after the race
+            except threads.SimDeadlock as e:
+                res.update(result="violation", vclass="deadlock", detail={"phase": "sequential constructions after the race", "detail": str(e)})
+                return res
         try:
             if sched.deadlock is not None:
                 raise Violation("deadlock", {"blocked_threads": sched.deadlock["blocked"], "step": sched.step,
@@ -536,7 +548,8 @@ def worker(argv):
     _boot()
     driver.arm_watchdog(a["budget"] * 3 + 300)
     runner = Runner()
-    warmup(runner)
+    if os.environ.get("VERIF_WARM") == "1":
+        warmup(runner)         # default is cold: every forked run starts from a process that has imported the package but never used it
     agg = {"runs": 0, "skipped": 0, "steps": 0, "switches": 0, "hot_points": 0, "overlaps": 0, "epilogue_recompiles": 0,
            "lock_acquire": 0, "lock_blocked": 0, "lock_timeout": 0, "sleep": 0, "parked": 0, "violations": 0, "ops": 0}
     per_policy = {}
@@ -595,7 +608,8 @@ def worker(argv):
 def replay(payload):
     _boot()
     runner = Runner()
-    warmup(runner)
+    if os.environ.get("VERIF_WARM") == "1":
+        warmup(runner)
     res = runner.run(payload["scenario"], payload.get("seed", 0), decisions=payload["decisions"])
     if res["result"] == "violation":
         print(f"REPRODUCED property={PROP} class={res['vclass']} steps={res['info']['steps']} switches={res['info']['switches']}")
